@@ -17,6 +17,7 @@ import (
 	clmath "github.com/osmosis-labs/osmosis/v31/x/concentrated-liquidity/math"
 	clmodel "github.com/osmosis-labs/osmosis/v31/x/concentrated-liquidity/model"
 	cltypes "github.com/osmosis-labs/osmosis/v31/x/concentrated-liquidity/types"
+	lockuptypes "github.com/osmosis-labs/osmosis/v31/x/lockup/types"
 	pmtypes "github.com/osmosis-labs/osmosis/v31/x/poolmanager/types"
 
 	"verif/harness/chain"
@@ -71,6 +72,23 @@ type PosRec struct {
 	Gen          int  // value of Sim.Gen when the position was created (anything that moves accumulators bumps it)
 	Mods         int  // claims / partial withdrawals performed on the position since it was created
 	Entered      bool // the price has (possibly) been inside [Lower, Upper) since creation
+	// underlying lock of a full-range position created locked (0 = none): the position is bound until the lock has been
+	// unlocking for its whole duration
+	LockID   uint64
+	LockDur  time.Duration
+	UnlockAt time.Time // zero: unlocking not started
+}
+
+// Bound reports whether the position is bound by an unexpired lock at time now (the module's own rule: the lock's end
+// time must lie strictly before the block time).
+func (r PosRec) Bound(now time.Time) bool {
+	if r.LockID == 0 {
+		return false
+	}
+	if r.UnlockAt.IsZero() {
+		return true
+	}
+	return !r.UnlockAt.Add(r.LockDur).Before(now)
 }
 
 type SwapInfo struct {
@@ -321,6 +339,65 @@ func (s *Sim) CreateSameRange(rt *rapid.T) {
 	s.log("createSame#%d a%d [%d,%d) %s/%s liq=%s", resp.PositionId, a, resp.LowerTick, resp.UpperTick, a0, a1, resp.LiquidityCreated)
 }
 
+// CreateLocked opens a full-range position whose liquidity is tokenised and locked (the path superfluid staking and the
+// balancer->concentrated migration use): it cannot be withdrawn, added to or transferred until the lock has matured.
+func (s *Sim) CreateLocked(rt *rapid.T) {
+	a := rapid.IntRange(0, NActors-1).Draw(rt, "owner")
+	a0, a1 := genAmount(rt, "amt0"), genAmount(rt, "amt1")
+	dur := rapid.SampledFrom([]time.Duration{time.Second, time.Hour, 24 * time.Hour, 14 * 24 * time.Hour}).Draw(rt, "lockDuration")
+	first := len(s.Known) == 0
+	var data cltypes.CreateFullRangePositionData
+	var lockID uint64
+	err := s.C.Try(func(ctx sdk.Context) error {
+		var err error
+		data, lockID, err = s.C.App.ConcentratedLiquidityKeeper.CreateFullRangePositionLocked(ctx, s.PoolID, chain.Actor(a), sdk.NewCoins(coin(D0, a0), coin(D1, a1)), dur)
+		if err == nil && data.Liquidity.LT(osmomath.OneDec()) {
+			// the callers of this keeper function (superfluid delegation, balancer migration) never keep a lock of zero
+			// share units: the delegation of a zero-valued lock is rejected and the transaction rolled back
+			return fmt.Errorf("liquidity %s tokenises to zero shares", data.Liquidity)
+		}
+		return err
+	})
+	if err != nil {
+		s.class("create-locked-rejected")
+		return
+	}
+	if _, dup := s.Known[data.ID]; dup {
+		rt.Fatalf("CreateFullRangePositionLocked returned position id %d which already exists", data.ID)
+	}
+	s.Known[data.ID] = PosRec{Owner: a, Lower: cltypes.MinInitializedTick, Upper: cltypes.MaxTick, Join: s.C.Ctx.BlockTime(), Gen: s.Gen, Entered: true, LockID: lockID, LockDur: dur}
+	s.LPOps++
+	s.Ev = &Event{Kind: "create", ID: data.ID, Owner: a}
+	if first {
+		s.class("first-position")
+	}
+	s.class("locked-position-created")
+	s.log("createLocked#%d a%d %s/%s liq=%s lock#%d %s", data.ID, a, a0, a1, data.Liquidity, lockID, dur)
+}
+
+// BeginUnlock starts unlocking the lock under a locked position.
+func (s *Sim) BeginUnlock(rt *rapid.T) {
+	var ids []uint64
+	for _, id := range s.SortedKnown() {
+		if r := s.Known[id]; r.LockID != 0 && r.UnlockAt.IsZero() {
+			ids = append(ids, id)
+		}
+	}
+	if len(ids) == 0 {
+		rt.Skip("no locked position")
+	}
+	id := ids[rapid.IntRange(0, len(ids)-1).Draw(rt, "lockedPos")]
+	rec := s.Known[id]
+	r := s.C.Exec(&lockuptypes.MsgBeginUnlocking{Owner: chain.Actor(rec.Owner).String(), ID: rec.LockID})
+	if !r.OK() {
+		rt.Fatalf("MsgBeginUnlocking of lock %d under position %d by its owner failed: %v [history %v]", rec.LockID, id, r.Err, s.Hist)
+	}
+	rec.UnlockAt = s.C.Ctx.BlockTime()
+	s.Known[id] = rec
+	s.class("locked-position-unlocking")
+	s.log("beginUnlock#%d lock#%d", id, rec.LockID)
+}
+
 func (s *Sim) pickPos(rt *rapid.T) (uint64, PosRec) {
 	ids := make([]uint64, 0, len(s.Known))
 	for id := range s.Known {
@@ -338,6 +415,13 @@ func (s *Sim) AddToPosition(rt *rapid.T) {
 	id, p := s.pickPos(rt)
 	a0, a1 := genAmount(rt, "amt0"), genAmount(rt, "amt1")
 	r := s.C.Exec(&cltypes.MsgAddToPosition{PositionId: id, Sender: chain.Actor(p.Owner).String(), Amount0: osmomath.NewIntFromBigInt(a0), Amount1: osmomath.NewIntFromBigInt(a1), TokenMinAmount0: osmomath.ZeroInt(), TokenMinAmount1: osmomath.ZeroInt()})
+	if p.Bound(s.C.Ctx.BlockTime()) {
+		if r.OK() {
+			rt.Fatalf("MsgAddToPosition(#%d) succeeded although the position is bound by unexpired lock %d [history %v]", id, p.LockID, s.Hist)
+		}
+		s.class("bound-position-add-rejected")
+		return
+	}
 	if !r.OK() {
 		s.class("add-rejected")
 		return
@@ -380,6 +464,16 @@ func (s *Sim) Withdraw(rt *rapid.T) {
 		}
 	}
 	r := s.C.Exec(&cltypes.MsgWithdrawPosition{PositionId: id, Sender: chain.Actor(p.Owner).String(), LiquidityAmount: amt})
+	if p.Bound(s.C.Ctx.BlockTime()) {
+		if r.OK() {
+			rt.Fatalf("MsgWithdrawPosition(#%d) succeeded although the position is bound by unexpired lock %d (unlocking since %v, duration %s) [history %v]", id, p.LockID, p.UnlockAt, p.LockDur, s.Hist)
+		}
+		s.class("bound-position-withdraw-rejected")
+		return
+	}
+	if p.LockID != 0 {
+		s.class("matured-locked-position-withdrawn")
+	}
 	if !r.OK() {
 		if s.StrictExit {
 			rt.Fatalf("MsgWithdrawPosition(#%d, %s of %s) by its owner failed: %v [history %v]", id, amt, liq, r.Err, s.Hist)
@@ -570,8 +664,15 @@ func (s *Sim) Transfer(rt *rapid.T) {
 		before[q.PositionId] = true
 	}
 	r := s.C.Exec(&cltypes.MsgTransferPositions{PositionIds: []uint64{id}, Sender: chain.Actor(p.Owner).String(), NewOwner: chain.Actor(to).String()})
+	if p.Bound(s.C.Ctx.BlockTime()) {
+		if r.OK() {
+			rt.Fatalf("MsgTransferPositions(#%d) succeeded although the position is bound by unexpired lock %d [history %v]", id, p.LockID, s.Hist)
+		}
+		s.class("bound-position-transfer-rejected")
+		return
+	}
 	if !r.OK() {
-		// business rules (last position in the pool, same owner, locked position) reject some transfers
+		// business rules (last position in the pool, same owner) reject some transfers
 		s.class("transfer-rejected")
 		return
 	}
@@ -681,5 +782,7 @@ func (s *Sim) actions() map[string]func(*rapid.T) {
 		"transfer":         s.Transfer,
 		"incentive":        s.CreateIncentive,
 		"time":             s.AdvanceTime,
+		"createLocked":     s.CreateLocked,
+		"beginUnlock":      s.BeginUnlock,
 	}
 }
